@@ -86,7 +86,7 @@ class Node:
             if until and until():
                 return True
             pool = [t for t in (self.s.threads if include_psm else self._others())]
-            go = [t for t in pool if self.s.enabled(t) == "go" and not t.idle]
+            go = [t for t in pool if self.s.enabled(t) == "go" and not self.s.is_idle(t)]
             if go:
                 self.s.step(go[0])
             elif fire_timers:
@@ -161,12 +161,15 @@ class Node:
     def inject(self, msg):
         """a parsed message as the receive worker would have queued it"""
         self.assoc._recv_messages.put(msg)
+        self.s.wake_idle()
 
     def feed(self, raw):
         self.sock.inbox.append(bytes(raw))
+        self.s.wake_idle()              # the environment changed: nobody may be considered idle
 
     def peer_close(self):
         self.sock.eof = True
+        self.s.wake_idle()
 
     def take_sent(self):
         """messages written to the socket since the last call (decoded)"""
